@@ -63,3 +63,12 @@ func checkAtoms(as []Atom) string {
 	}
 	return ""
 }
+
+// CoreAtomTexts returns the spellings of the core atoms (also used as byte-level inputs by C03).
+func CoreAtomTexts() []string {
+	var out []string
+	for _, a := range coreAtoms {
+		out = append(out, a.Text)
+	}
+	return out
+}
